@@ -109,10 +109,19 @@ pub fn define_variable(
     Ok(index)
 }
 
+/// The key a type alias is bound under. Aliases are written `'name` and variables `name`: they
+/// are different names, so an alias must neither evict nor be evicted by a variable that happens
+/// to share its identifier (`x = 1` followed by `'x = 'int` keeps both).
+pub fn type_alias_key(name: &str) -> String {
+    format!("'{name}")
+}
+
 /// Define a new type alias in the current scope
 pub fn define_type_alias(scopes: &mut [Scope], name: String, type_alias: TypeAliasDef) {
     if let Some(scope) = scopes.last_mut() {
-        scope.bindings.insert(name, Binding::TypeAlias(type_alias));
+        scope
+            .bindings
+            .insert(type_alias_key(&name), Binding::TypeAlias(type_alias));
     }
 }
 
@@ -198,8 +207,9 @@ pub fn lookup_variable_provenance(scopes: &[Scope], name: &str) -> Option<super:
 /// Look up a type alias in the scope stack
 /// Searches from innermost to outermost scope
 pub fn lookup_type_alias(scopes: &[Scope], name: &str) -> Option<TypeAliasDef> {
+    let key = type_alias_key(name);
     for scope in scopes.iter().rev() {
-        if let Some(Binding::TypeAlias(type_alias)) = scope.bindings.get(name) {
+        if let Some(Binding::TypeAlias(type_alias)) = scope.bindings.get(&key) {
             return Some(type_alias.clone());
         }
     }
